@@ -103,7 +103,8 @@ class Universe:
         r = self.rng.random()
         if r < 0.9:
             return self.data_ok()
-        return self.rng.choice([("bad", None), ("bad", 5), ("bad", b"bytes"), ("blank", ""), ("blank", "  "),
+        return self.rng.choice([("bad", None), ("bad", 5), ("bad", b"bytes"), ("bad", ("stream", "text")), ("bad", ("stream", "raw")),
+                                ("bad", ("stream", "stringio")), ("blank", ""), ("blank", "  "),
                                 ("nofile", "str"), ("nofile", "Path")])
 
     def alg_spelling(self, pool=None):
@@ -211,7 +212,8 @@ class Universe:
             return store_object(rng.choice(["", " ", "a b", "x\ty", OTHER]), self.data_any())
         if k == "store_data":
             return store_object(rng.choice([self.pid(), None]), rng.choice(
-                [("bad", None), ("bad", 5), ("bad", b"bytes"), ("blank", ""), ("blank", " \n"), ("nofile", "str"), ("nofile", "Path")]))
+                [("bad", None), ("bad", 5), ("bad", b"bytes"), ("bad", ("stream", "text")), ("bad", ("stream", "raw")),
+                 ("bad", ("stream", "stringio")), ("blank", ""), ("blank", " \n"), ("nofile", "str"), ("nofile", "Path")]))
         if k == "store_size":
             return store_object(self.pid(), self.data_ok(tok), None, None, None, rng.choice([0, -1, OTHER, True, False]))
         if k == "store_algo":
@@ -258,7 +260,8 @@ class Universe:
             if r < 0.4:
                 return store_metadata(self.bad_sarg(), self.data_ok(), self.fmt())
             if r < 0.7:
-                return store_metadata(self.pid(), rng.choice([("bad", None), ("bad", 7), ("blank", ""), ("nofile", "str")]), self.fmt())
+                return store_metadata(self.pid(), rng.choice([("bad", None), ("bad", 7), ("bad", ("stream", "text")), ("bad", ("stream", "stringio")), ("blank", ""),
+                                                              ("nofile", "str")]), self.fmt())
             return store_metadata(self.pid(), self.data_ok(), rng.choice([" ", "\t\n", OTHER]))
         if k == "rmeta":
             return retrieve_metadata(self.bad_sarg(), rng.choice([None, "f1", " "]))
